@@ -294,6 +294,14 @@ pub fn open_relation_cases() -> Vec<OpenCase> {
             }
         }
     }
+    // two instances of one table under different names: a bare column name belongs to both
+    for n in ["a", "x"] {
+        for join in ["join zm = t1 (ze.id == zm.id)", "join side:left zm = t1 (ze.id == zm.a)", "join zm = (from t1 | select {id, N}) (ze.id == zm.id)", "join zm = (from t1 | filter id > 0) (true)"] {
+            for use_ in ["select {N}", "filter N > 0", "sort {N}", "derive {zw = N + 1}", "select {ze.id, N}"] {
+                v.push(OpenCase { source: format!("from ze = t1 | {join} | {use_}\n").replace('N', n) });
+            }
+        }
+    }
     v
 }
 
